@@ -108,7 +108,7 @@ def run(res, tier, seed, shard, nshards):
             for to in (None, interval * 0.4):
                 jobs.append(("periodic", interval, to, behaviour))
     for interval, to in ((1.0, 0.4), (2.0, 0.5), (0.6, 0.25)):
-        for first in ("eof", "server-close-then-second-run", "refused-then-ok"):
+        for first in ("eof", "server-close-then-second-run", "refused-then-ok", "eof-with-ping-outstanding", "reset-with-ping-outstanding"):
             jobs.append(("second-use", interval, to, first))
     for interval, to in ((1.0, 0.4), (2.0, 0.9), (3.0, 1.0)):
         for lat in (0.0, 1e-3, to / 2):
@@ -543,6 +543,12 @@ def second_use_case(res, W, rng, interval, to, first):
     silent = dict(outcome="ok", script=[], pong=None)
     if first == "eof":
         plan = [dict(outcome="ok", script=[(1.3 * interval, "eof")], pong=0.0), silent, dict(outcome="ok", script=[(0.5, "close", b"")])]
+        run, out, failure, S = execute(plan, kw, "loop-first", 60 * interval + 60, reconnect=0.5)
+        idx = 1
+    elif first in ("eof-with-ping-outstanding", "reset-with-ping-outstanding"):
+        # the first connection is lost while its first ping is still unanswered (well inside the timeout)
+        plan = [dict(outcome="ok", script=[(2 * interval + to / 4, "eof" if first.startswith("eof") else "reset")], pong=lambda k, t: None), silent,
+                dict(outcome="ok", script=[(0.5, "close", b"")])]
         run, out, failure, S = execute(plan, kw, "loop-first", 60 * interval + 60, reconnect=0.5)
         idx = 1
     elif first == "refused-then-ok":
